@@ -23,7 +23,84 @@ def run(ctx: Ctx) -> Collector:
     _capacity(ctx, c)
     _front(ctx, c)
     _entity_identity(ctx, c)
+    _feasibility(ctx, c)
+    _no_state_between_calls(ctx, c)
     return c
+
+
+def _feasibility(ctx: Ctx, c: Collector) -> None:
+    """A request is refused up front exactly when it cannot be met: more sources than len(dest_set) * max_connects
+    places.  A request that fits exactly is carried out."""
+    fi = ctx.func(RANDOMLY)
+    s = ctx.summ(RANDOMLY)
+    srcs, dests = T.var(fi.params[1]), T.var(fi.params[2])
+    mc = T.var("max_connects")
+    n = call(T.glob("len"), srcs)
+    caps = (("op", "*", call(T.glob("len"), dests), mc), ("op", "*", mc, call(T.glob("len"), dests)))
+    pr = []
+    found = 0
+    conds = [(T.strip(a.term[1]), True, a) for a in s.of_kind("assert") if not a.iters] + \
+            [(T.guard_term(r.guards[-1]), False, r) for r in s.of_kind("raise") if not r.iters and r.guards]
+    for cond, holds_on_normal_path, e in conds:
+        for x in ([cond] if cond[0] == "cmp" else [y for y in T.subterms((cond,)) if y[0] == "cmp"]):
+            if x[1] in ("<", "<=") and ((x[2] == n and x[3] in caps) or (x[3] == n and x[2] in caps)):
+                found += 1
+                if cond != x:
+                    continue
+                # normalised to the condition under which the request is accepted
+                acc = x if holds_on_normal_path else T.negate(x)
+                if acc != ("cmp", "<=", n, caps[0]) and acc != ("cmp", "<=", n, caps[1]):
+                    pr.append(f"requests are accepted under {T.show(acc)} (line {e.lineno}) instead of len(src_set) <= len(dest_set) * max_connects: "
+                              + ("a request that fits exactly is refused" if acc[1] == "<" and acc[2] == n else "a request that cannot be met is accepted"))
+    c.add("feasible", RANDOMLY, "refused iff len(src_set) > len(dest_set) * max_connects", VIOLATED if pr else DISCHARGED,
+          "; ".join(pr) if pr else f"{found} capacity precondition(s)", fi.loc)
+
+
+def _no_state_between_calls(ctx: Ctx, c: Collector) -> None:
+    """The helpers keep nothing from one call to the next: a default argument that is a container exists once, so a
+    helper that changes it (directly or by handing it to another helper that does) counts the connections of earlier
+    calls -- in other worlds, too -- against the limit of this one."""
+    import ast as _ast
+    from ..flow import _mutations, _MUTATORS
+    prog = ctx.prog
+    fns = [f for f in prog.all_functions() if f.module.name == "mosaik.util" and not isinstance(f.node, _ast.Lambda)]
+    by_name = {f.name: f for f in fns}
+
+    def mutated(f, p, depth=0) -> Optional[str]:
+        if _mutations(f.node).get(p, set()) & _MUTATORS:
+            return f"{f.name} changes it"
+        if depth > 3:
+            return None
+        for nd in _ast.walk(f.node):
+            if isinstance(nd, _ast.Call) and isinstance(nd.func, _ast.Name) and nd.func.id in by_name:
+                g = by_name[nd.func.id]
+                ga = g.node.args
+                pos = [x.arg for x in ga.posonlyargs + ga.args]
+                for i, a in enumerate(nd.args):
+                    if isinstance(a, _ast.Name) and a.id == p and i < len(pos):
+                        r = mutated(g, pos[i], depth + 1)
+                        if r:
+                            return f"{f.name} hands it to {g.name}: {r}"
+                for k in nd.keywords:
+                    if isinstance(k.value, _ast.Name) and k.value.id == p and k.arg is not None:
+                        r = mutated(g, k.arg, depth + 1)
+                        if r:
+                            return f"{f.name} hands it to {g.name}: {r}"
+        return None
+
+    pr = []
+    n = 0
+    for f in fns:
+        a = f.node.args
+        names = [x.arg for x in a.posonlyargs + a.args]
+        pairs = list(zip(names[len(names) - len(a.defaults):], a.defaults)) + [(x.arg, d) for x, d in zip(a.kwonlyargs, a.kw_defaults) if d is not None]
+        for p, d in pairs:
+            if isinstance(d, (_ast.Dict, _ast.List, _ast.Set)) or (isinstance(d, _ast.Call) and isinstance(d.func, _ast.Name) and d.func.id in ("dict", "list", "set", "Counter", "defaultdict")):
+                n += 1
+                r = mutated(f, p)
+                if r:
+                    pr.append(f"the default of {f.name}({p}=...) is one container for all calls, and {r}")
+    c.add("stateless", "mosaik.util", "no container default is changed", VIOLATED if pr else DISCHARGED, "; ".join(pr) if pr else f"{n} container defaults, none changed", "")
 
 
 def _connects(s: Summary, world: Term) -> List[Event]:
